@@ -32,7 +32,7 @@ def fake_prepend_zdir(zdir, path):
     return hx.FakePath(p, FS[0])
 
 
-hx.set(c, "prepend_zdir", fake_prepend_zdir)
+hx.put(c, "prepend_zdir", fake_prepend_zdir)
 
 
 class _Tmpl:
@@ -63,7 +63,7 @@ class FakeManager(tp.ZorgTemplateManager):
         self._zdir = hx.FakePath(ZDIR, FS[0])
 
 
-hx.set(tp, "ZorgTemplateManager", FakeManager)
+hx.put(tp, "ZorgTemplateManager", FakeManager)
 
 TEMPLATES = {
     "day.zot": "day template header\n# second header line\n\n## {{ date }} log\n##\n- first {{ parent }}\n",
